@@ -5,13 +5,20 @@ package responder
 // assertions about conjure.
 
 import (
+	"context"
 	"encoding/hex"
 	"encoding/json"
 	"fmt"
+	"net"
 	"os"
+	"strings"
+	"sync"
 	"testing"
+	"time"
 
 	"github.com/refraction-networking/conjure/pkg/registrars/dns-registrar/dns"
+	"github.com/refraction-networking/conjure/pkg/registrars/dns-registrar/encryption"
+	"github.com/refraction-networking/conjure/pkg/registrars/dns-registrar/requester"
 )
 
 type vcase struct {
@@ -20,7 +27,38 @@ type vcase struct {
 	Domain []string `json:"domain"`
 	Resp   string   `json:"resp"`
 }
+// recConn records the datagrams that cross the requester's UDP socket.
+type recConn struct {
+	net.Conn
+	mu    sync.Mutex
+	sent  [][]byte
+	recvd [][]byte
+}
+
+func (c *recConn) Write(b []byte) (int, error) {
+	c.mu.Lock()
+	c.sent = append(c.sent, append([]byte{}, b...))
+	c.mu.Unlock()
+	return c.Conn.Write(b)
+}
+func (c *recConn) Read(b []byte) (int, error) {
+	n, err := c.Conn.Read(b)
+	if err == nil {
+		c.mu.Lock()
+		c.recvd = append(c.recvd, append([]byte{}, b[:n]...))
+		c.mu.Unlock()
+	}
+	return n, err
+}
+
 type vres struct {
+	Timeout bool   `json:"timeout"`
+	Seen    bool   `json:"seen"`     // the responder's callback ran
+	SeenPay string `json:"seenpay"`  // what it was given
+	QWire   string `json:"qwire"`    // the query datagram
+	RWire   string `json:"rwire"`    // the response datagram
+	NSent   int    `json:"nsent"`
+	NRecvd  int    `json:"nrecvd"`
 	Ok      bool   `json:"ok"`      // the query parsed
 	HasResp bool   `json:"hasresp"` // responseFor returned a message
 	Flags   int    `json:"flags"`
@@ -64,8 +102,94 @@ func runCase(c vcase) (r vres) {
 		}
 		r.HasPay = payload != nil
 		r.Out = hex.EncodeToString(payload)
+	case "exchange": // real requester <-> real responder over loopback UDP
+		exchange(c, &r)
 	}
 	return
+}
+
+func exchange(c vcase, r *vres) {
+	payload, _ := hex.DecodeString(c.Data)
+	answer, _ := hex.DecodeString(c.Resp)
+	var labels []string
+	for _, l := range domainOf(c.Domain) {
+		labels = append(labels, string(l))
+	}
+	domain := strings.Join(labels, ".")
+	priv, err := encryption.GeneratePrivkey()
+	if err != nil {
+		r.Err = "keygen: " + err.Error()
+		return
+	}
+	rs, err := NewDnsResponder(domain, "127.0.0.1:0", priv)
+	if err != nil {
+		r.Err = "responder: " + err.Error()
+		return
+	}
+	defer rs.Close()
+	var mu sync.Mutex
+	go func() {
+		_ = rs.RecvAndRespond(func(p []byte) ([]byte, error) {
+			mu.Lock()
+			r.Seen = true
+			r.SeenPay = hex.EncodeToString(p)
+			mu.Unlock()
+			return answer, nil
+		})
+	}()
+	var rc *recConn
+	cfg := &requester.Config{
+		TransportMethod: requester.UDP,
+		Target:          rs.transport.LocalAddr().String(),
+		BaseDomain:      domain,
+		Pubkey:          encryption.PubkeyFromPrivkey(priv),
+		DialTransport: func(ctx context.Context, network, addr string) (net.Conn, error) {
+			conn, err := (&net.Dialer{}).DialContext(ctx, network, addr)
+			if err != nil {
+				return nil, err
+			}
+			rc = &recConn{Conn: conn}
+			return rc, nil
+		},
+	}
+	rq, err := requester.NewRequester(cfg)
+	if err != nil {
+		r.Err = "requester: " + err.Error()
+		return
+	}
+	type result struct {
+		b   []byte
+		err error
+	}
+	done := make(chan result, 1)
+	go func() {
+		b, err := rq.RequestAndRecv(payload)
+		done <- result{b, err}
+	}()
+	select {
+	case res := <-done:
+		r.Ok2 = res.err == nil
+		r.Out2 = hex.EncodeToString(res.b)
+		if res.err != nil {
+			r.Err = res.err.Error()
+		}
+	case <-time.After(2500 * time.Millisecond):
+		r.Timeout = true
+	}
+	mu.Lock()
+	defer mu.Unlock()
+	if rc != nil {
+		rc.mu.Lock()
+		r.NSent, r.NRecvd = len(rc.sent), len(rc.recvd)
+		if len(rc.sent) > 0 {
+			r.QWire = hex.EncodeToString(rc.sent[0])
+		}
+		if len(rc.recvd) > 0 {
+			r.RWire = hex.EncodeToString(rc.recvd[0])
+		}
+		rc.mu.Unlock()
+		_ = rq.Close()
+	}
 }
 
 func TestVerifC15Responder(t *testing.T) {
@@ -78,9 +202,22 @@ func TestVerifC15Responder(t *testing.T) {
 		t.Fatal(err)
 	}
 	res := make([]vres, len(cases))
+	var wg sync.WaitGroup
+	sem := make(chan struct{}, 16)
 	for i, c := range cases {
-		res[i] = runCase(c)
+		if c.Op != "exchange" {
+			res[i] = runCase(c)
+			continue
+		}
+		wg.Add(1)
+		sem <- struct{}{}
+		go func(i int, c vcase) {
+			defer wg.Done()
+			res[i] = runCase(c)
+			<-sem
+		}(i, c)
 	}
+	wg.Wait()
 	out, _ := json.Marshal(res)
 	if err := os.WriteFile(os.Getenv("VERIF_OUT"), out, 0o644); err != nil {
 		t.Fatal(err)
